@@ -380,6 +380,8 @@ public:
     Command* decl;
     const Token& startTok;
     bool shellEscapeInAndOut;
+    /// The rule-level variables currently being expanded (innermost last).
+    SmallVector<StringRef, 4> activeRuleVariables;
   };
   static void lookupBuildParameter(void* userContext, StringRef name,
                                    raw_ostream& result) {
@@ -389,8 +391,6 @@ public:
   void lookupBuildParameterImpl(LookupContext* context, StringRef name,
                                 raw_ostream& result) {
     auto decl = context->decl;
-      
-    // FIXME: Mange recursive lookup? Ninja crashes on it.
       
     // Support "in", "in_newline" and "out".
     if (name == "in" || name == "in_newline") {
@@ -421,11 +421,22 @@ public:
     }
     auto it2 = decl->getRule()->getParameters().find(name);
     if (it2 != decl->getRule()->getParameters().end()) {
+      // A rule variable that (transitively) refers to itself can never be
+      // expanded; diagnose it instead of recursing until the stack is gone.
+      for (const auto& active: context->activeRuleVariables) {
+        if (active == name) {
+          error("cycle in rule variables involving '" + name.str() + "'",
+                context->startTok);
+          return;
+        }
+      }
+      context->activeRuleVariables.push_back(name);
       evalString(context, it2->second, result, lookupBuildParameter,
                  /*Error=*/ [&](const std::string& msg) {
                    error(msg + " during evaluation of '" + name.str() + "'",
                          context->startTok);
                  });
+      context->activeRuleVariables.pop_back();
       return;
     }
       
